@@ -55,6 +55,7 @@ theorem oo_encPrim (p : Prim) (v : Val) (st : EncSt) (h : primOK p v = true) : O
   · rw [if_pos h]; exact oo_ok _
   · rw [if_pos h]; exact oo_ok _
   · rw [if_pos h]; exact oo_ok _
+  · rw [if_pos (by omega)]; exact oo_ok _
 
 /-- the pre-serialised names cover every removed / made-transient step -/
 def PreCovers : List Step → List (Option Bytes) → Prop
